@@ -347,6 +347,10 @@ def run(rep: Report, repo: Repo, tier: str) -> None:
         pathterms.rule_title_terms(rep, repo, "C16-R9", "C16-R9", "C16-R9")
     with rep.isolated():
         rule_writer_settings(rep, repo, "C16-R10")
+    # an explicitly configured (even empty) prefix is the prefix in effect: only "not set" falls back to the directory name
+    from .c12 import rule_prefix_default
+    with rep.isolated():
+        rule_prefix_default(rep, repo, "C16-R11")
 
 
 def rule_output_dir_resolution(rep: Report, repo: Repo, rule: str) -> None:
